@@ -268,8 +268,8 @@ Qed.
 Lemma this_or_that_state ra rb s sa sb r s' :
   this_or_that ra rb s sa sb = (r, s') ->
   match r with
-  | inl true => s' = sa \/ exists w, s' = save_conflicts sa sb w
-  | inl false => s' = sb \/ exists w, s' = save_conflicts sb sa w
+  | inl true => s' = sa \/ exists w, w < length (ist sa) /\ s' = save_conflicts sa sb w
+  | inl false => s' = sb \/ exists w, w < length (ist sb) /\ s' = save_conflicts sb sa w
   | inr _ => True
   end.
 Proof.
@@ -279,7 +279,7 @@ Proof.
       try (inv H; auto; fail);
       (destruct (Nat.eqb (remaining s) (remaining sa) && Nat.eqb (remaining s) (remaining sb));
        [inv H; auto|]);
-      destruct (pick_winner sa sb) as [[|] [w|]]; inv H; eauto.
+      destruct (pick_winner sa sb) as [[|] [w|]] eqn:Epw; inv H; auto; apply pick_winner_lt in Epw; right; exists w; tauto.
   - destruct rb; inv H; auto.
   - destruct ra; inv H; auto.
 Qed.
@@ -296,8 +296,8 @@ Proof.
             = (ROk v, s') -> NL s s').
   { intros r0 s0 Ht E. apply this_or_that_state in Ht.
     destruct r0 as [[|]|e]; inv E.
-    - destruct Ht as [->|[w ->]]; eauto using save_conflicts_NL.
-    - destruct Ht as [->|[w ->]]; eauto using save_conflicts_NL. }
+    - destruct Ht as [->|[w [_ ->]]]; eauto using save_conflicts_NL.
+    - destruct Ht as [->|[w [_ ->]]]; eauto using save_conflicts_NL. }
   destruct ra; try (inv H; fail); destruct rb; try (inv H; fail);
     destruct (this_or_that _ _ s sa sb) as [r0 s0] eqn:Ht; eapply Hcase; eauto.
 Qed.
